@@ -509,6 +509,9 @@ func boundFor(g genCfg, quick bool) int {
 		if g.Gen == "WrapContent" && !g.Excl {
 			return 0
 		}
+		if g.Gen == "UnixFSDirectory" && g.Size == 2048 && !g.Custom {
+			return 2 // a sub-directory that finishes early needs two deviations
+		}
 		if g.Size >= 2048 || (g.Gen != "UnixFSFile" && g.Gen != "BuildDirectory" && !(g.Gen == "WrapContent")) {
 			return 1
 		}
@@ -544,7 +547,10 @@ func TestC19(t *testing.T) {
 	var mu sync.Mutex
 	var stats []stat
 	var wg sync.WaitGroup
-	sem := make(chan struct{}, runtime.NumCPU())
+	// few configurations run at a time, each with its level-1 subtrees spread
+	// over several goroutines
+	perCfgWorkers := 4
+	sem := make(chan struct{}, (runtime.NumCPU()+perCfgWorkers-1)/perCfgWorkers)
 	for i, g := range cfgs {
 		i, g := i, g
 		wg.Add(1)
@@ -557,7 +563,7 @@ func TestC19(t *testing.T) {
 				r.InternalError(fmt.Sprintf("nondeterministic replay %s %v: %q vs %q", g, ch, a, b))
 			}}
 			outcomes := map[string]bool{}
-			ex.Explore(func(x *xplore.Ctx) string {
+			ex.ExploreParallel(perCfgWorkers, func(x *xplore.Ctx) string {
 				var sig, detail string
 				var trunc bool
 				ok := t.Run("x", func(st *testing.T) {
